@@ -56,7 +56,26 @@ func (e *vrEnv) send(name, prev, hash string, size int64, beg, end int64, data [
 	e.st.Prepare([]sts.Binned{p})
 	file := &sts.Partial{Name: name, Prev: prev, Size: size, Time: marshal.NanoTime{Time: time.Unix(p.time, 0)}, Hash: hash, Source: "src",
 		Parts: []*sts.ByteRange{{Beg: beg, End: end}}}
-	return e.st.Receive(file, bytes.NewReader(data))
+	return e.st.Receive(file, &vrSlow{r: bytes.NewReader(data), n: len(data)/2 + 1})
+}
+
+// vrSlow hands out the body in two pieces with a short pause in between (a body that is
+// still arriving while other connections make progress)
+type vrSlow struct {
+	r     *bytes.Reader
+	n     int
+	calls int
+}
+
+func (s *vrSlow) Read(p []byte) (int, error) {
+	s.calls++
+	if s.calls == 2 {
+		time.Sleep(300 * time.Microsecond)
+	}
+	if len(p) > s.n {
+		p = p[:s.n]
+	}
+	return s.r.Read(p)
 }
 
 // quiet waits until nothing moves any more
@@ -289,6 +308,65 @@ func verifRaceStorm(w *bufio.Writer, tmp string, id string, nfiles, nconn int, s
 		nfiles, nconn, seed, len(files), delivered, bad, badlog, twice, order, staged, len(recs))
 }
 
+// verifRaceReady: the receiver restarts on a stage that holds a completely received, not yet
+// validated file; from the moment the gate keeper says "ready" again (requests are processed
+// instead of answered 503) recovery must be over: no recovered file may still be unvalidated
+func verifRaceReady(w *bufio.Writer, tmp string, id string, mib int) {
+	root := filepath.Join(tmp, "race"+id)
+	os.RemoveAll(root)
+	defer os.RemoveAll(root)
+	stageDir, finalDir, logDir := filepath.Join(root, "stage"), filepath.Join(root, "final"), filepath.Join(root, "log")
+	os.MkdirAll(filepath.Join(stageDir, "d"), 0o755)
+	os.MkdirAll(finalDir, 0o755)
+	name := "d/big.bin"
+	size := int64(mib) << 20
+	data := make([]byte, size)
+	for i := range data {
+		data[i] = byte(i*11 + i>>7)
+	}
+	path := filepath.Join(stageDir, name)
+	os.WriteFile(path+fullExt, data, 0o644)
+	cmp := &sts.Partial{Name: name, Size: size, Hash: vrMD5(data), Source: "src",
+		Time: marshal.NanoTime{Time: time.Now().Add(-time.Minute)}, Parts: []*sts.ByteRange{{Beg: 0, End: size}}}
+	if err := writeCompanion(path, cmp); err != nil {
+		panic(err)
+	}
+	logger := log.NewFileIO(logDir, nil, nil, false)
+	st := New("src", stageDir, finalDir, logger, nil, nil)
+	defer st.Stop(true)
+	fin := make(chan bool, 1)
+	go func() { st.Recover(); fin <- true }()
+	// recovery has begun once the gate keeper says "not ready"
+	began := false
+	for i := 0; i < 20000 && !began; i++ {
+		if !st.Ready() {
+			began = true
+		} else {
+			time.Sleep(50 * time.Microsecond)
+		}
+	}
+	fullAtReady, stateAtReady := 0, -2
+	for i := 0; i < 400000; i++ {
+		if st.Ready() {
+			if _, err := os.Stat(path + fullExt); err == nil {
+				fullAtReady = 1
+			}
+			stateAtReady = st.getFileState(path)
+			break
+		}
+		time.Sleep(50 * time.Microsecond)
+	}
+	select {
+	case <-fin:
+	case <-time.After(20 * time.Second):
+	}
+	b := 0
+	if began {
+		b = 1
+	}
+	fmt.Fprintf(w, "SR ready %d 0 0 = began=%d full_at_ready=%d state_at_ready=%d\n", mib, b, fullAtReady, stateAtReady)
+}
+
 func TestVerifStageRace(t *testing.T) {
 	wr, done, ok := gen.Out()
 	if !ok {
@@ -304,6 +382,9 @@ func TestVerifStageRace(t *testing.T) {
 	nswap := gen.EnvInt("VERIF_RACE_SWAP", 4)
 	for i := 0; i < nswap; i++ {
 		verifRaceSwap(wr, tmp, fmt.Sprintf("s%d", i), []int{32, 48, 64, 24}[i%4], i%2 == 0)
+	}
+	for i := 0; i < gen.EnvInt("VERIF_RACE_READY", 3); i++ {
+		verifRaceReady(wr, tmp, fmt.Sprintf("r%d", i), []int{24, 40, 16}[i%3])
 	}
 	nstorm := gen.EnvInt("VERIF_RACE_STORM", 40)
 	for i := 0; i < nstorm; i++ {
